@@ -29,4 +29,5 @@ MUTANTS = [
      'edits': [(COMP, "                            if output_offset == 0 && !buf.is_empty() {\n                                // Nothing produced by the end of this stream: go on\n                                // with the next one, `Ok(0)` would mean end of data\n                                continue;\n                            }\n", "")]},
     {'id': 'c13-benign-error-context-keeps-kind', 'props': ['C13'], 'expect': 'silent', 'patch': 'patches/c13-error-context-keeps-kind.diff'},
     {'id': 'c13-error-context-drops-kind', 'props': ['C13'], 'expect': 'fire', 'keys': ['io-error-rebuilt-from-io-error'], 'patch': 'patches/c13-error-context-drops-kind.diff'},
+    {'id': 'c13-benign-writer-count-and-then-form', 'props': ['C13', 'C20', 'C09'], 'expect': 'silent', 'patch': 'patches/c13-writer-count-and-then-form.diff'},
 ]
